@@ -25,6 +25,9 @@ const SUP: &str = "sup = #[(@-> 'int), (@-> 'int), (@-> 'int), 'int] { =[a, b, c
 const NEVER: &str = "never = #{ !'int }";
 /// a supervisor that first polls a slow by-stander with a short timeout - leaving a registration
 /// behind if that times out - and then selects over a process that never finishes and the victim
+/// an awaiter whose one select lists the victim BEFORE a receive source with a long filter that
+/// rejects what it is sent: the failure may be reported while the filter runs
+const SELF: &str = "self = #[(@-> 'int), 'int] { =[v, s], ! [v, #'int { =m, w = [s, 0] spin, m =999999 }] }";
 const SUP2: &str = "sup2 = #[(@-> 'int), (@-> 'int), (@-> 'int), 'int] { =[slow, nv, v, t], x = [! [slow, t]], ! [nv, v] }";
 const SINK: &str = "sink = #{ !#\\File, 5 }";
 
@@ -210,7 +213,7 @@ impl Property for C15 {
         let receives = !filter_kind && rng.chance(1, 2);
         let vspin = *rng.pick(&[0u32, 0, 5, 20, 60]);
         let (vdef, io) = victim_def(f, vspin, receives);
-        let mut defs: Vec<String> = vec![super::c04::SPIN.into(), AW.into(), BY.into(), SNDV.into(), REL.into(), REL2.into(), REL3.into(), POLL.into(), POLLW.into(), GATE.into(), SUP.into(), NEVER.into(), SUP2.into()];
+        let mut defs: Vec<String> = vec![super::c04::SPIN.into(), AW.into(), BY.into(), SNDV.into(), REL.into(), REL2.into(), REL3.into(), POLL.into(), POLLW.into(), GATE.into(), SUP.into(), NEVER.into(), SUP2.into(), SELF.into()];
         if f == Fail::Ownership {
             defs.push(SINK.into());
         }
@@ -313,6 +316,18 @@ impl Property for C15 {
             let p = fresh_path(&mut next_child);
             expect_err.push(p);
             h.u64(0x5b);
+        }
+        if rng.chance(1, 3) {
+            body.push(format!("sf = [&v, {}] @self", *rng.pick(&[5u32, 40, 150, 400])));
+            let p = fresh_path(&mut next_child);
+            expect_err.push(p);
+            // messages its filter rejects, sent while the victim is still running
+            let nm = 1 + rng.usize(3);
+            for i in 0..nm {
+                body.push(format!("{} sf", 50 + i));
+            }
+            h.u64(0x5c);
+            h.u64(nm as u64);
         }
         // by-standers that ask for more bytes than a binary can hold: a read of 20 000 000 from a file of
         // 16 MiB + 4 KiB (rare: every run moves 16 MiB through the transport and the event log), and a
